@@ -111,6 +111,10 @@ def run(c):
             c.finding_or_violation(cz("the root holds entries that were not configured", entries=extra[:5]), rep, klass="root-extra")
         if pr["old_root"] or not pr["dotdot_is_root"]:
             c.finding_or_violation(cz("the old root is reachable"), rep, klass="old-root")
+        dirs = [e for e in pr.get("extra_fds", []) if e[1]]
+        if dirs:
+            c.finding_or_violation(cz("the program inherits a directory descriptor that is none of its mounts", descriptors=[e[0] for e in dirs],
+                                      host_tree_reachable_through_it=any(e[2] for e in dirs)), rep, klass="dirfd")
         if pr["root_write"] != 30:
             c.finding_or_violation(cz("the root accepts modifications", errno=pr["root_write"]), rep, klass="root-writable")
         for m in kept:
